@@ -381,12 +381,20 @@ func sweepStage(dir string, seed uint64, tier string) error {
 			}
 			sw.try(bi, kind, at, []piece{lt(seg...), regionOf(bi)})
 		}
+		// PAX size records 0..3000: every value in the thorough tier; in the quick tier every value near a
+		// 512-byte block boundary or the entry's own size (where the reader's behaviour changes) and a spread of the rest
 		maxSize := 3000
-		sstep := 1
-		if tier != "thorough" {
-			sstep = 3
+		entrySize := 0
+		if zr, err := gzip.NewReader(bytes.NewReader(b.region)); err == nil {
+			if raw, _ := io.ReadAll(zr); len(raw) >= 512 {
+				fmt.Sscanf(strings.TrimRight(string(raw[124:136]), " \x00"), "%o", &entrySize)
+			}
 		}
-		for k := 0; k <= maxSize; k += sstep {
+		for k := 0; k <= maxSize; k++ {
+			near := k <= 16 || k%512 <= 3 || k%512 >= 509 || (k >= entrySize-3 && k <= entrySize+3)
+			if tier != "thorough" && !near && k%17 != 0 {
+				continue
+			}
 			withTail("pending-pax-size", k, synthrepo.PaxMeta(map[string]string{"size": fmt.Sprint(k)}), k%2 == 0)
 		}
 		for _, nm := range []string{".SIGN.x", "APKINDEX", "DESCRIPTION", "other", ".SIGN.RSA256." + k1} {
